@@ -128,6 +128,8 @@ type Opts struct {
 	PushSet bool
 	// NoProxy connects the client straight to the server
 	NoProxy bool
+	// Tune is called before the client and the server are started
+	Tune func(c *arpc.Client, s *arpc.Server)
 }
 
 func waitCh(ch <-chan struct{}, d time.Duration) bool {
@@ -194,6 +196,9 @@ func newPair(src *am.Machine, o Opts) (*Pair, error) {
 		return nil, err
 	}
 	p.C = c
+	if o.Tune != nil {
+		o.Tune(c, s)
+	}
 	s.Start(nil)
 	if !waitCh(s.Mach.When1(ssrpc.ServerStates.RpcReady, ctx), 10*time.Second) {
 		p.Close()
